@@ -86,8 +86,10 @@ Fixpoint has_cc (e : expr) : bool :=
   | EClosure _ b => has_cc b
   end.
 
-(* Known class 2: a float literal whose Display text is an integer; [defloat] is what re-parsing yields *)
-Definition defloat_lit (l : lit) : lit := match l with LFloat _ (Some k) => LInt k | _ => l end.
+(* Until the printer used the Debug form, a float literal whose Display text is an integer re-parsed as an int and
+   [defloat] described that change; the class is repaired, so the normalisation is now the identity (kept so that
+   the proofs stay parametric in it and a regression shows up as a broken theorem). *)
+Definition defloat_lit (l : lit) : lit := l.
 Fixpoint defloat (e : expr) : expr :=
   match e with
   | EIdent _ | ESelf => e
